@@ -117,7 +117,7 @@ fn token(rng: &mut Rng, after_identifier: bool) -> String {
         7..=8 => rng.pick(IDENTS).to_string(),
         9 => rng.pick(&["SCORE", "TOTAL", "A$B", "XIF", "FNX", "N1", "B2$", "NOTE", "ORB", "ANDY"]).to_string(),
         10 => numeral_after(rng, after_identifier),
-        11 => format!("\"{}\"", rng.pick(&["", "A", "hi there", "é", "a:b,c", "REM", "日本"])),
+        11 => format!("\"{}\"", rng.pick(&["", "A", "a", "hi there", "Hi There", "HI THERE", "é", "a:b,c", "REM", "rem", "日本"])),
         12 => "(".into(),
         _ => ")".into(),
     }
